@@ -174,6 +174,14 @@ def u2f_curve(c):
     return f
 def u2f_rsa_leaf(s, r): s.k["u2f_att_key"] = regsim.rsa_key("u2f_rsa_att")
 def u2f_cred_not_ec(s, r): s.kind = "RS256"
+def u2f_long_coordinate(s, r):
+    # the COSE key inside the signed authenticator data carries a coordinate with bytes in front of the 32 the field has (x or y, one or several bytes, zero or not), while the
+    # U2F signature was made over the classic 65-byte key: what is signed is not what the authenticator data says
+    cr = Cred("ES256-P256")
+    m = dict(cr.cose_map())
+    which = r.choice([-2, -3])
+    m[which] = r.choice([b"\x00", b"\x01", b"\xff", b"\x00\x00", b"\x7f" * 3]) + m[which]
+    s.k["cose_bytes"] = cbor2.dumps(m)
 def tpm_e3(s, r):
     # credential key (n, 3) while the TPM certifies (n, default 65537)
     s.kind = "RS256"
@@ -270,6 +278,7 @@ FORMAT_FAULTS = {
         "signed-other-credential-id": set_k(u2f_signed_cred_id=b"another-credential"),
         "signed-over-outer-rawid-not-attested-id": set_k(u2f_signed_cred_id=b"outer-credential-id", outer_raw_id=b"outer-credential-id"), "signed-other-public-key": set_k(u2f_signed_pk=b"\x04" + bytes(64)),
         "signed-other-clientdata": signed_other_cdh, "reserved-byte-nonzero": set_k(u2f_prefix=b"\x01"), "sha384-signature": set_k(u2f_hash=hashes.SHA384),
+        "credential-key-coordinate-longer-than-the-field": u2f_long_coordinate,
         "sig-missing": stmt_drop("sig"), "x5c-missing": stmt_drop("x5c"),
     },
     "tpm": {
